@@ -83,6 +83,38 @@ def opPath (j : Json) : Except String Json := do
       ("file_path", jOptStr mf.filePath), ("folder_path", jOptStr md.folderPath),
       ("str", jStr p.str), ("parent", jStr p.parent.str)]
 
+/-- op `c04.blips`: {"records": [{"type": n, "inst": n, "data": [byte]}]} ↦ the pictures the PPT / XLS BLIP loop
+stores: [{"index", "ct", "payload", "size", "pos", "len"}] (pos / len: of the stream `get_bytes()` returns) -/
+def opBlips (j : Json) : Except String Json := do
+  let a ← getArr j "records"
+  let recs ← a.toList.mapM fun r => do
+    return ({ recType := (← getNat r "type"), inst := (← getNat r "inst"), data := (← natArr r "data") } : BlipRec)
+  let out := (blipImages recs).map fun bi =>
+    let s := (getBytes bi.image).1
+    Json.mkObj [("index", bi.index), ("ct", Json.str bi.contentType), ("payload", jNats s.content),
+      ("size", bi.image.sizeBytes), ("pos", s.pos), ("len", s.content.length)]
+  return Json.mkObj [("images", Json.arr out.toArray)]
+
+/-- op `c04.pathseq`: {"calls": [{"path": str|null, "host_file": str|null, "host_folder": str|null}]}: a history of
+calls in one process, each with the host's answers AT THAT CALL ↦ the four fields per call -/
+def opPathSeq (j : Json) : Except String Json := do
+  let a ← getArr j "calls"
+  let calls ← a.toList.mapM fun c => do
+    let path ← getOptStr c "path"
+    let hf ← getOptStr c "host_file"
+    let hd ← getOptStr c "host_folder"
+    -- the host at this call: answers for str(p) and str(p.parent) (the two strings the code probes)
+    let host : Host := match path with
+      | none => fun _ => none
+      | some s =>
+        let p := parsePath (chars s)
+        fun q => if q = p.parent.str then hd.map chars else if q = p.str then hf.map chars else none
+    return ({ host := host, path := path.map chars } : PathCall)
+  let out := (runPathCalls calls).map fun m =>
+    Json.mkObj [("filename", jOptStr m.filename), ("file_extension", jOptStr m.fileExtension),
+      ("file_path", jOptStr m.filePath), ("folder_path", jOptStr m.folderPath)]
+  return Json.mkObj [("results", Json.arr out.toArray)]
+
 def digTable (j : Json) : Except String DigitVal := do
   let a ← match j.getObjVal? "digits" with
     | .ok v => v.getArr?
@@ -102,6 +134,8 @@ def handle (op : String) (j : Json) : Option (Except String Json) :=
   | "c04.xls" => some (opXls j)
   | "c04.bytes" => some (opBytes j)
   | "c04.path" => some (opPath j)
+  | "c04.blips" => some (opBlips j)
+  | "c04.pathseq" => some (opPathSeq j)
   | "c04.combine" => some do
       let cps ← natArr j "cps"
       return Json.mkObj [("cps", jNats (combineSurrogates cps)), ("wf", Json.bool (wellFormed (combineSurrogates cps)))]
